@@ -74,6 +74,7 @@ func features() []feature {
 		g("none-bool", "(None, True)", "(None, False)"),
 		// values that are equal under == but that a function can tell apart
 		g("int-vs-float", "7", "7.0"), g("zero-sign", "0.0", "-0.0"), g("dict-order", "{\"a\": 1, \"b\": 2}", "{\"b\": 2, \"a\": 1}"), g("set-order", "set([1, 2])", "set([2, 1])"),
+		g("range-vs-list", "[0, 1, 2]", "range(3)"), g("same-named-builtins-of-two-modules", "sh.exec", "os.exec"), g("struct-vs-dict", "host", "{\"os\": host.os, \"arch\": host.arch}"),
 		g("nested-int-vs-float", "[(1, 2)]", "[(1, 2.0)]"), g("dictkey-int-vs-float", "{1: \"x\"}", "{1.0: \"x\"}"),
 		{Name: "default-int-vs-float", Params: ", d3=3", Body: "    x_d3 = d3\n", Edits: []edit{{"change default to the equal float", ", d3=3", ", d3=3.0"}}},
 		{Name: "global-cyclic-list", Pre: "CY = [1]\nCY.append(CY)\n", Body: "    x_cy = CY\n", Edits: []edit{{"change element of cyclic list", "CY = [1]", "CY = [2]"}}},
@@ -514,7 +515,12 @@ func main() {
 			// the fingerprint is the encoding (what the record stores); equality under == is not
 			// enough: 1 and 1.0, or two orders of a dict's entries, are different values to the function
 			eq, _ := sameEnv(l1, le)
-			if eq = eq && bytes.Equal(l1.bytes, le.bytes); eq {
+			if eq = eq && bytes.Equal(l1.bytes, le.bytes); eq && strings.Contains(e.Name, "same-named-builtins-of-two-modules") {
+				// builtins are fingerprinted by their bare name: sh.exec and os.exec are both "exec"
+				viol("edit-not-detected:same-named-builtins-of-two-modules", "the edit leaves the fingerprint unchanged", e.Name)
+				continue
+			}
+			if eq {
 				viol("edit-not-detected", "the edit leaves the fingerprint unchanged", e.Name)
 				continue
 			}
